@@ -437,43 +437,28 @@ func (eng *Engine) translate(unit, mode string, fn *ssa.Function, fc *FuncContra
 
 // frameObligations: for every heap variable written by the function, objects
 // that existed at entry and are not covered by the modifies clause are unchanged.
-func (fr *Frame) frameObligations(r retRec, ri int, entry *State) {
+type frameAllowed struct {
+	addr  string
+	field int // -1: whole object
+}
+
+// frameAllow evaluates the modifies clause at entry: per heap variable the addresses (and fields) that may change.
+// ok=false when the clause allows everything.
+func (fr *Frame) frameAllow(entry *State) (allow map[string][]frameAllowed, free map[string]bool, ok bool) {
 	vc := fr.vc
 	fc := fr.fc
+	allow = map[string][]frameAllowed{}
+	free = map[string]bool{}
 	if fc == nil || fc.Kind != "func" {
-		return
+		return nil, nil, false
 	}
 	for _, m := range fc.Modifies {
 		if m == "all" || m == "heap" {
-			return
+			return nil, nil, false
 		}
 	}
-	written := map[string]bool{}
-	allHeaps := false
-	for _, ws := range fr.writes {
-		for n := range ws.names {
-			if isHeapVar(n) {
-				written[n] = true
-			}
-		}
-		if ws.allHeaps {
-			allHeaps = true
-		}
-	}
-	if allHeaps {
-		return // reported at the havoc'ing call site (path-sensitive)
-	}
-	if len(written) == 0 {
-		return
-	}
-	// allowed addresses per heap variable, from the modifies clause (evaluated at entry)
 	env := fr.newEnv(entry, entry)
 	fr.bindParams(env)
-	type allowed struct {
-		addr  string
-		field int // -1: whole object
-	}
-	allow := map[string][]allowed{}
 	for _, item := range fc.Modifies {
 		item = strings.TrimSpace(item)
 		if item == "" || item == "nothing" || strings.HasPrefix(item, "ghost ") {
@@ -484,21 +469,16 @@ func (fr *Frame) frameObligations(r retRec, ri int, entry *State) {
 			if err != nil {
 				panic(bindErr("bad modifies item " + item))
 			}
-			delete(written, vc.arrHeapVar(vc.eng.resolveType(te, env.pkg)))
+			free[vc.arrHeapVar(vc.eng.resolveType(te, env.pkg))] = true
 			continue
 		}
 		if strings.HasPrefix(item, "type ") {
 			t := vc.eng.resolveType(mustParseType(strings.TrimSpace(item[5:])), env.pkg)
-			delete(written, vc.heapVar(t))
+			free[vc.heapVar(t)] = true
 			continue
 		}
 		if strings.HasPrefix(item, "global ") {
-			g := strings.TrimSpace(item[7:])
-			for n := range written {
-				if strings.HasPrefix(n, "G_") && strings.HasSuffix(n, "."+g) {
-					allow[n] = append(allow[n], allowed{addr: "", field: -1})
-				}
-			}
+			free["global:"+strings.TrimSpace(item[7:])] = true
 			continue
 		}
 		elems := strings.HasSuffix(item, "[*]")
@@ -515,16 +495,16 @@ func (fr *Frame) frameObligations(r retRec, ri int, entry *State) {
 			switch u := tv.typ.Underlying().(type) {
 			case *types.Slice:
 				hv := vc.arrHeapVar(u.Elem())
-				allow[hv] = append(allow[hv], allowed{addr: fmt.Sprintf("(sref %s)", tv.term), field: -1})
+				allow[hv] = append(allow[hv], frameAllowed{addr: fmt.Sprintf("(sref %s)", tv.term), field: -1})
 			case *types.Map:
 				hv := vc.mapHeapVar(u)
-				allow[hv] = append(allow[hv], allowed{addr: tv.term, field: -1})
+				allow[hv] = append(allow[hv], frameAllowed{addr: tv.term, field: -1})
 			}
 		case deref:
 			tv := env.eval(e, nil)
 			pt := tv.typ.Underlying().(*types.Pointer)
 			hv := vc.heapVar(pt.Elem())
-			allow[hv] = append(allow[hv], allowed{addr: tv.term, field: -1})
+			allow[hv] = append(allow[hv], frameAllowed{addr: tv.term, field: -1})
 		default:
 			if sel, ok := e.(ESel); ok {
 				base := env.eval(sel.X, nil)
@@ -533,7 +513,7 @@ func (fr *Frame) frameObligations(r retRec, ri int, entry *State) {
 						for i := 0; i < stt.NumFields(); i++ {
 							if stt.Field(i).Name() == sel.Sel {
 								hv := vc.heapVar(pt.Elem())
-								allow[hv] = append(allow[hv], allowed{addr: base.term, field: i})
+								allow[hv] = append(allow[hv], frameAllowed{addr: base.term, field: i})
 							}
 						}
 						continue
@@ -543,49 +523,41 @@ func (fr *Frame) frameObligations(r retRec, ri int, entry *State) {
 			tv := env.eval(e, nil)
 			if m, ok := tv.typ.Underlying().(*types.Map); ok {
 				hv := vc.mapHeapVar(m)
-				allow[hv] = append(allow[hv], allowed{addr: tv.term, field: -1})
+				allow[hv] = append(allow[hv], frameAllowed{addr: tv.term, field: -1})
 			}
 		}
+	}
+	return allow, free, true
+}
+
+// frameFormula: every object of heap variable hv that existed at entry and is not
+// covered by the modifies clause has the same value in state term h1 as at entry.
+func (fr *Frame) frameFormula(hv string, allow map[string][]frameAllowed, entry *State, h1 string) string {
+	vc := fr.vc
+	h0 := entry.get(hv)
+	if h0 == h1 {
+		return "true"
 	}
 	next0 := entry.get(vc.nextVar())
-	var names []string
-	for n := range written {
-		names = append(names, n)
+	var excl []string
+	var fieldItems []frameAllowed
+	for _, al := range allow[hv] {
+		if al.field < 0 {
+			excl = append(excl, not(eq("a", al.addr)))
+		} else {
+			fieldItems = append(fieldItems, al)
+		}
 	}
-	sort.Strings(names)
-	for _, hv := range names {
-		if strings.HasPrefix(hv, "G_") {
-			if len(allow[hv]) > 0 {
-				continue
-			}
-			vc.addObl(&Obligation{Name: fmt.Sprintf("%s#frame.%s", vc.unit, hv), Kind: "frame", Props: fc.Props, Guard: r.guard,
-				Goal: eq(r.st.get(hv), entry.get(hv)), Src: "global " + hv + " is not listed in modifies"})
-			continue
-		}
-		h0, h1 := entry.get(hv), r.st.get(hv)
-		if h0 == h1 {
-			continue
-		}
-		// forall a. 0 < a < NEXT@entry and a not allowed  ==>  h1[a] == h0[a]   (field-wise for field items)
-		var excl []string
-		var fieldItems []allowed
-		for _, al := range allow[hv] {
-			if al.field < 0 {
-				excl = append(excl, not(eq("a", al.addr)))
-			} else {
-				fieldItems = append(fieldItems, al)
+	body := eq(fmt.Sprintf("(select %s a)", h1), fmt.Sprintf("(select %s a)", h0))
+	if len(fieldItems) > 0 {
+		var t types.Type
+		for tt, name := range vc.heapTypes {
+			if name == hv {
+				t = tt
 			}
 		}
-		body := eq(fmt.Sprintf("(select %s a)", h1), fmt.Sprintf("(select %s a)", h0))
-		if len(fieldItems) > 0 {
-			// objects with modifiable fields: every other field is unchanged
-			var t types.Type
-			for tt, name := range vc.heapTypes {
-				if name == hv {
-					t = tt
-				}
-			}
-			if st, ok := t.Underlying().(*types.Struct); ok && t != nil {
+		if t != nil {
+			if st, ok := t.Underlying().(*types.Struct); ok {
 				var conj []string
 				for i := 0; i < st.NumFields(); i++ {
 					var cond []string
@@ -603,7 +575,57 @@ func (fr *Frame) frameObligations(r retRec, ri int, entry *State) {
 				body = and(conj...)
 			}
 		}
-		goal := fmt.Sprintf("(forall ((a Int)) (=> %s %s))", and(append([]string{"(< 0 a)", fmt.Sprintf("(< a %s)", next0)}, excl...)...), body)
+	}
+	return fmt.Sprintf("(forall ((a Int)) (=> %s %s))", and(append([]string{"(< 0 a)", fmt.Sprintf("(< a %s)", next0)}, excl...)...), body)
+}
+
+// frameObligations: for every heap variable written by the function, objects
+// that existed at entry and are not covered by the modifies clause are unchanged.
+func (fr *Frame) frameObligations(r retRec, ri int, entry *State) {
+	vc := fr.vc
+	fc := fr.fc
+	allow, free, ok := fr.frameAllow(entry)
+	if !ok {
+		return
+	}
+	written := map[string]bool{}
+	for _, ws := range fr.writes {
+		for n := range ws.names {
+			if isHeapVar(n) {
+				written[n] = true
+			}
+		}
+		if ws.allHeaps {
+			return // reported at the havoc'ing call site (path-sensitive)
+		}
+	}
+	var names []string
+	for n := range written {
+		names = append(names, n)
+	}
+	sort.Strings(names)
+	for _, hv := range names {
+		if free[hv] {
+			continue
+		}
+		if strings.HasPrefix(hv, "G_") {
+			okg := false
+			for f := range free {
+				if strings.HasPrefix(f, "global:") && strings.HasSuffix(hv, "."+f[7:]) {
+					okg = true
+				}
+			}
+			if okg {
+				continue
+			}
+			vc.addObl(&Obligation{Name: fmt.Sprintf("%s#frame.%s", vc.unit, hv), Kind: "frame", Props: fc.Props, Guard: r.guard,
+				Goal: eq(r.st.get(hv), entry.get(hv)), Src: "global " + hv + " is not listed in modifies"})
+			continue
+		}
+		goal := fr.frameFormula(hv, allow, entry, r.st.get(hv))
+		if goal == "true" {
+			continue
+		}
 		vc.addObl(&Obligation{Name: fmt.Sprintf("%s#frame.%s", vc.unit, hv), Kind: "frame", Props: fc.Props, Guard: r.guard,
 			Goal: goal, Src: "objects existing at entry and not listed in modifies are unchanged in " + hv})
 	}
